@@ -19,6 +19,7 @@ class Page(object):
         self.location = None        # for redirects: (raw spelling, canonical target)
         self.nofollow = False
         self.extra_head = ''
+        self.junk = []              # raw hrefs that are not parseable URLs
 
     def body(self):
         if self.kind == 'html' or self.kind == 'leaf':
@@ -30,7 +31,10 @@ class Page(object):
                 elif l['kind'] == 'script':
                     parts.append('<script src="%s"></script>' % l['href'])
             parts.append('</head><body><p>page %s</p>' % self.url)
+            junk = list(self.junk)
             for l in self.links:
+                if junk and l['kind'] == 'a':
+                    parts.append('<a href="%s">junk</a>\n' % junk.pop())
                 if l['kind'] == 'a':
                     parts.append('<a href="%s">link</a>\n' % l['href'])
                 elif l['kind'] == 'img':
@@ -127,7 +131,7 @@ class Site(object):
 
 
 def generate(rng, host='a.test', n_pages=None, requisites=True, redirects=True, subdirs=True, spellings=None,
-             extra_hosts=()):
+             extra_hosts=(), junk_links=False):
     site = Site(host)
     n = n_pages or rng.choice([3, 5, 8, 12, 20, 40])
     base = 'http://' + host
@@ -207,6 +211,14 @@ def generate(rng, host='a.test', n_pages=None, requisites=True, redirects=True, 
             target.is_redirect_target = True
             add_link(rng, site, rng.choice(html), r.url, 'a', allow)
             site.features.add('redirect-%d' % r.status)
+    if junk_links:
+        # links that cannot be parsed as URLs, mixed into pages that also carry good links
+        for u in html:
+            if rng.random() < 0.3:
+                for _ in range(rng.choice([1, 2])):
+                    site.pages[u].junk.append(rng.choice(['http://[::1/x', 'http://a.test:99999/p', 'http://bad host/',
+                                                          'http://a.test:port/', 'http://%zz%/']))
+                site.features.add('junk-link')
     for h in extra_hosts:
         # links to another host (out of scope unless spanning is enabled)
         serial[0] += 1
